@@ -48,6 +48,21 @@ pub struct SolverCache<D: DependencyProvider> {
     hint_dependencies_available: RefCell<BitVec>,
 }
 
+/// Removes the in-flight entry of a package and notifies any waiters when
+/// dropped, unless the entry has already been removed.
+struct InFlightGuard<'a> {
+    in_flight: &'a RefCell<HashMap<NameId, Rc<Event>>>,
+    package_name: NameId,
+}
+
+impl Drop for InFlightGuard<'_> {
+    fn drop(&mut self) {
+        if let Some(notifier) = self.in_flight.borrow_mut().remove(&self.package_name) {
+            notifier.notify(usize::MAX);
+        }
+    }
+}
+
 impl<D: DependencyProvider> SolverCache<D> {
     /// Constructs a new instance from a provider.
     pub fn new(provider: D) -> Self {
@@ -112,6 +127,14 @@ impl<D: DependencyProvider> SolverCache<D> {
                         self.package_name_to_candidates_in_flight
                             .borrow_mut()
                             .insert(package_name, Rc::new(Event::new()));
+
+                        // If this future is dropped before the request completes (e.g. because
+                        // the solve was cancelled), the guard removes the in-flight entry again
+                        // so that a later request does not wait forever on an abandoned one.
+                        let _in_flight_guard = InFlightGuard {
+                            in_flight: &self.package_name_to_candidates_in_flight,
+                            package_name,
+                        };
 
                         // Otherwise we have to get them from the DependencyProvider
                         let candidates = self
